@@ -779,7 +779,13 @@ func (e *Evaluator) createSpeculativeObjects(specObj *Cell) (*Cell, error) {
 }
 
 func (e *Evaluator) evalAssignment(expr Expr, left *Cell, right *Cell) (*Cell, error) {
-	if left.Value.Tag == ValueNil && left.Value.ParentObj != nil {
+	isSpeculative := left.Value.Tag == ValueNil && left.Value.ParentObj != nil
+	// a method found through a prototype, see the member lookup in
+	// evalBinaryExpr. assigning to it must set the member on the receiver, like
+	// for a member that doesn't exist yet, and never touch the prototype
+	isMethod := left.Value.Tag == ValueNativeFn && left.Value.ParentObj != nil
+
+	if isSpeculative || isMethod {
 		// speculative object creation
 		var err error
 		left, err = e.createSpeculativeObjects(left)
